@@ -186,6 +186,7 @@ func rulesC16(c *Ctx) {
 	afterWSRule(c, tt)
 	parseFreshRule(c, "C16.parsefresh")
 	regexGapRule(c)
+	rawScanRule(c, "C16.rawscan", tt)
 	n := probeBalance(c, "C16.noleak")
 	c.Floor("C16.noleak", n, 120)
 
@@ -473,4 +474,120 @@ func regexGapRule(c *Ctx) {
 		}
 	}
 	c.Floor("C16.regexgap", n, 5)
+}
+
+// rawScanRule: a raw scan (one that does not skip whitespace and comments) is
+// legitimate only where the grammar itself is layout-sensitive.
+func rawScanRule(c *Ctx, rule string, tt *tokenTable) {
+	p := c.P
+	c.Rule(rule, "a token obtained with the raw Parser.Scan is compared only with WS (to detect whitespace) or with a token the grammar requires to be adjacent (`.` between name segments, `::` before a type, `(` after a function name) — or is only peeked and pushed back: a raw scan that expects a separator such as `,` or `)` makes the statement depend on whether the previous clause happened to swallow the whitespace, and rejects a comment there")
+	rawScan := p.SSAFunc(p.Method("Parser", "Scan"))
+	skip := p.SSAFunc(p.Method("Parser", "ScanIgnoreWhitespace"))
+	if rawScan == nil || skip == nil {
+		c.Unk(rule, "anchors", 0, "Parser.Scan/ScanIgnoreWhitespace not found")
+		return
+	}
+	adjacent := map[string]bool{"WS": true, "DOT": true, "DOUBLECOLON": true, "LPAREN": true, "COMMENT": true}
+	n := 0
+	for _, fn := range p.SrcFuncs() {
+		if fn == skip || fn == rawScan {
+			continue
+		}
+		i := 0
+		for _, b := range fn.Blocks {
+			for _, in := range b.Instrs {
+				call, ok := in.(*ssa.Call)
+				if !ok || call.Call.StaticCallee() != rawScan {
+					continue
+				}
+				i++
+				n++
+				key := fmt.Sprintf("%s: raw scan #%d", fn.Name(), i)
+				// the token value: Extract #0
+				var against []string
+				for _, ref := range *call.Referrers() {
+					ex, ok := ref.(*ssa.Extract)
+					if !ok || ex.Index != 0 {
+						continue
+					}
+					var collect func(v ssa.Value, d int)
+					seen := map[ssa.Value]bool{}
+					collect = func(v ssa.Value, d int) {
+						if seen[v] || d > 3 {
+							return
+						}
+						seen[v] = true
+						for _, r2 := range *v.Referrers() {
+							switch x := r2.(type) {
+							case *ssa.BinOp:
+								if x.Op != token.EQL && x.Op != token.NEQ {
+									continue
+								}
+								other := x.Y
+								if other == v {
+									other = x.X
+								}
+								if k, ok := other.(*ssa.Const); ok && k.Value != nil && types.Identical(k.Type(), tt.Type) {
+									tv, _ := constant.Int64Val(k.Value)
+									against = append(against, tt.Name[tv])
+								}
+							case *ssa.Phi:
+								collect(x, d+1)
+							}
+						}
+					}
+					collect(ex, 0)
+				}
+				// peeked only: the next parser call in the block pushes it back
+				peeked := false
+				after := false
+				for _, in2 := range b.Instrs {
+					if in2 == ssa.Instruction(call) {
+						after = true
+						continue
+					}
+					if !after {
+						continue
+					}
+					if c2, ok := in2.(*ssa.Call); ok {
+						if cal := c2.Call.StaticCallee(); cal != nil && cal.Signature.Recv() != nil {
+							peeked = cal.Name() == "Unscan"
+							break
+						}
+					}
+				}
+				// the token right after `::` (the type name is adjacent by grammar)
+				afterCast := false
+				for d := b; d != nil; d = d.Idom() {
+					ifi, ok := d.Instrs[len(d.Instrs)-1].(*ssa.If)
+					if !ok || d == b {
+						continue
+					}
+					bo, ok := ifi.Cond.(*ssa.BinOp)
+					if !ok || bo.Op != token.EQL {
+						continue
+					}
+					if k, ok := bo.Y.(*ssa.Const); ok && k.Value != nil && types.Identical(k.Type(), tt.Type) {
+						tv, _ := constant.Int64Val(k.Value)
+						if tt.Name[tv] == "DOUBLECOLON" && (d.Succs[0] == b || d.Succs[0].Dominates(b)) {
+							afterCast = true
+						}
+					}
+				}
+				var bad []string
+				for _, a := range against {
+					if !adjacent[a] && !peeked && !afterCast {
+						bad = append(bad, a)
+					}
+				}
+				sort.Strings(bad)
+				if len(bad) > 0 {
+					c.Bad(rule, key, call.Pos(), "the raw token is tested against "+strings.Join(bad, ", ")+": whitespace or a comment in front of it is not skipped here")
+				} else {
+					c.OK(rule, key, call.Pos(), fmt.Sprintf("compared with %v only", against))
+				}
+			}
+		}
+	}
+	c.Floor(rule, n, 10)
 }
